@@ -43,6 +43,10 @@ Console dimension: option slots enc (ascii, latin-1: ascii_only consoles) and
     legacy_windows; P5 = full product indent_guides x enc x line_numbers x word_wrap x
     every range on the shorter sources; every traceback module on utf-8 and ascii
     consoles (latin-1 / legacy_windows on a sub-product).
+Part "ws": third source stratum: lines with U+00A0 / U+3000 / U+2003 / U+200B / FF / VT
+    leading, after spaces, in the middle and alone, and a tab after spaces, x indent_guides
+    x line_numbers x word_wrap x {python, unknown lexer}; code points compared exactly
+    (only ASCII-space padding is stripped).
 The source alphabet has a second stratum: sequences over {blank, plain, a line with a
 form feed in a string literal, a line with U+2028 and U+0085 in a comment} that contain
 a special line (ONE line for Python and split("\n"), several for str.splitlines); the
@@ -101,6 +105,13 @@ SPECIAL_LINES = [FF_LINE, LS_LINE]
 SPECIAL_MENU = ["", "x = 1", FF_LINE, LS_LINE]
 # control characters every rich Text drops by design (rich.control: backspace, VT, FF, CR)
 DROPPED_CONTROLS = {8: None, 11: None, 12: None, 13: None}
+# Third stratum: non-ASCII white space and look-alikes, LEADING, in the MIDDLE and ALONE on a line
+WS_CHARS = ["\u00a0", "\u3000", "\u2003", "\u200b", "\x0c", "\x0b"]
+WS_LINES = [form % ch for ch in WS_CHARS for form in ("%sy", "  %sy", "a%sb", "%s")] + \
+           ["  \ty", "a \tb", " \t"]          # a tab after spaces
+WS_FILL = ["", "    y"]                       # neighbours: a blank line and an indented line (so that guides exist)
+WS_PRODUCT = [("ig", [False, True]), ("ln", [True, False]), ("ww", [False, True])]
+WS_LEXERS = ("python", "nolexer")
 LEXERS = ["python", "json", "html", "text", "nolexer"]
 BASE = {"ln": True, "start": 1, "hl": False, "ww": False, "cw": None, "ig": False,
         "theme": "monokai", "W": 60, "tab": 4, "enc": "utf-8", "lw": False}
@@ -154,6 +165,27 @@ TWO_RANGES = [None, (2, 3)]
 
 def _maxn(tier):
     return 3 if tier == "quick" else 4
+
+
+def _ws_sources(maxn=3):
+    """Every sequence of <= maxn lines with exactly one WS_LINES line, the others from WS_FILL; final newline."""
+    out = []
+    for n in range(1, maxn + 1):
+        for pos in range(n):
+            for fill in itertools.product(WS_FILL, repeat=n - 1):
+                for special in WS_LINES:
+                    seq = list(fill[:pos]) + [special] + list(fill[pos:])
+                    out.append("\n".join(seq) + "\n")
+    return out
+
+
+def _ws_cases(tier):
+    for code in _ws_sources():
+        for lexer in WS_LEXERS:
+            for vals in itertools.product(*[v for _n, v in WS_PRODUCT]):
+                dev = {n: v for (n, _v), v in zip(WS_PRODUCT, vals) if BASE[n] != v}
+                for r in (TWO_RANGES if tier == "quick" else _ranges(code)):
+                    yield code, lexer, dev, r
 
 
 def _product_vectors():
@@ -231,7 +263,7 @@ def _console(width, enc="utf-8", lw=False):
 
 
 def _blank(s):
-    return s.strip() == ""
+    return s.strip(" ") == ""       # only ASCII spaces (tabs are expanded): U+3000 etc. are characters of the code
 
 
 def _src_lines(code, tab):
@@ -253,18 +285,33 @@ def _leading_blank(L, T):
     return k
 
 
+_LOOSE = [False]
+
+
+def _only_whitespace_differs(problem):
+    """Diagnosis (chooses the finding key): does the failing rendering pass once white-space characters
+    (of any kind) are left out of the comparison of each displayed line with its source line?"""
+    _LOOSE[0] = True
+    try:
+        return problem() is None
+    finally:
+        _LOOSE[0] = False
+
+
 def _piece_ok(pieces, src, avail, ww, guides):
     """Does the rendered piece list show source line `src`?  avail = a lower bound of
     the cells available for code: only a line wider than that may be cropped/wrapped."""
     if guides:
         pieces = [p.replace(GUIDE, " ") for p in pieces]
-    if len(pieces) == 1 and pieces[0].rstrip() == src.rstrip():
+    if _LOOSE[0]:      # diagnosis mode: compare the non-white-space characters only
+        return "".join("".join(pieces).split()) == "".join(src.split())
+    if len(pieces) == 1 and pieces[0].rstrip(" ") == src.rstrip(" "):      # padding is ASCII spaces
         return True
     if sw(src) <= avail:
         return False
     if ww:
         return "".join("".join(pieces).split()) == "".join(src.split())
-    return len(pieces) == 1 and src.startswith(pieces[0].rstrip())
+    return len(pieces) == 1 and src.startswith(pieces[0].rstrip(" "))
 
 
 _RE_HEAD = re.compile(r"(  |%s |> )( *)(\d+) " % MARK)    # "> " is the pointer under legacy_windows
@@ -281,7 +328,7 @@ def _parse_numbered(out_lines):
     rows = []
     for line in out_lines:
         head, rest = line[:g], line[g:]
-        if head.strip() == "":
+        if head.strip(" ") == "":
             if not rows:
                 return None, g
             rows[-1][2].append(rest)
@@ -446,6 +493,10 @@ def judge_syntax(code, lexer, o, rng, out):
             return ("gutter-malformed", "cannot split %r into marker, number, code" % out_lines), 0, overflow
         avail = o["cw"] if o["cw"] is not None else o["W"] - g - 1
         prob = _numbered_problem(rows, L, T, rng, o["start"], avail, o["ww"], o["ig"])
+        if prob and prob[0] not in _RANGE_CLASSES and _only_whitespace_differs(
+                lambda: _numbered_problem(rows, L, T, rng, o["start"], avail, o["ww"], o["ig"])):
+            return ("whitespace-characters-changed", "%s | source lines %r | rendered %r" % (prob[1], L, out_lines)), \
+                len(rows), overflow
         if prob and prob[0] not in _RANGE_CLASSES and _extra_blank_row(out_lines, lambda rr, gg: _numbered_problem(
                 rr, L, T, rng, o["start"], avail, o["ww"], o["ig"])):
             # diagnosis only (chooses the finding key): everything but a last, blank, numbered row is right
@@ -476,9 +527,12 @@ def judge_syntax(code, lexer, o, rng, out):
         shown = len(rows)
     else:
         avail = o["cw"] if o["cw"] is not None else o["W"] - 2
-        stripped = [s.rstrip() for s in out_lines]
+        stripped = [s.rstrip(" ") for s in out_lines]
         prob = _plain_problem(stripped, L, T, rng, avail, o["ww"])
-        if prob and k and _plain_problem(stripped, L[k:], T - k, rng, avail, o["ww"]) is None:
+        if prob and _only_whitespace_differs(lambda: _plain_problem(stripped, L, T, rng, avail, o["ww"])):
+            prob = ("whitespace-characters-changed", prob[1])
+        if prob and prob[0] != "whitespace-characters-changed" and k and \
+                _plain_problem(stripped, L[k:], T - k, rng, avail, o["ww"]) is None:
             prob = ("leading-blank-lines-dropped",
                     "the rendering is that of the source without its %d leading blank line(s): %r" % (k, out_lines))
         shown = len(out_lines)
@@ -741,6 +795,19 @@ def check_syn_history(case, directory, tag, res):
                            "lexer alias); code menu %r): %s" % (step + 1, events, H_CODES, prob[1]))
 
 
+def _part_ws(sh, tier, res):
+    for idx, (code, lexer, dev, rng) in enumerate(_ws_cases(tier)):
+        if idx % sh["n"] != sh["i"]:
+            continue
+        if idx % 256 == sh["i"] and deadline_passed():
+            res.capped = True
+            break
+        check_syntax(code, lexer, dev, rng, res)
+        res.count("whitespace_cases")
+        if idx % 3001 == 0:
+            res.sample({"part": "syn", "code": code, "lexer": lexer, "dev": dev, "range": rng})
+
+
 def _part_synh(sh, tier, res):
     directory = tempfile.mkdtemp(prefix="vf_c17_")
     try:
@@ -766,17 +833,18 @@ def gen_module(shape, b, pre, post, trail, final_nl):
     """-> (text, frames) ; frames = [(lineno, function name)] outermost first."""
     lines = [""] * b
     shape, _plus, special = shape.partition("+")
-    sp = {"": None, "ff": FF_LINE, "ls": LS_LINE}[special]
+    # "ws": a triple-quoted string whose continuation lines start with U+3000 / consist of U+00A0 only
+    sp = {"": None, "ff": [FF_LINE], "ls": [LS_LINE], "ws": ['t = """', "\u3000y", "\u00a0", '"""']}[special]
     if shape == "flat":
         if sp:
-            lines.append(sp)
+            lines += sp
         lines += ["v%d = %d" % (i, i) for i in range(pre)]
         lines.append("raise ValueError('boom')")
         frames = [(len(lines), "<module>")]
     elif shape == "nested":
         lines.append("def f():")
         if sp:
-            lines.append("    " + sp)
+            lines += ["    " + sp[0]] + sp[1:]
         for i in range(pre):
             lines.append("" if i == 1 else "    a%d = %d" % (i, i))
         lines.append("    raise ValueError('boom')")
@@ -799,7 +867,7 @@ def gen_module(shape, b, pre, post, trail, final_nl):
     return "\n".join(lines) + ("\n" if final_nl else ""), frames
 
 
-SPECIAL_SHAPES = ["flat+ff", "flat+ls", "nested+ff", "nested+ls"]
+SPECIAL_SHAPES = ["flat+ff", "flat+ls", "nested+ff", "nested+ls", "flat+ws", "nested+ws"]
 
 
 TB_CONSOLES = {"utf-8": ("utf-8", False), "ascii": ("ascii", False), "latin-1": ("latin-1", False),
@@ -916,7 +984,7 @@ def _tb_blocks(out, path):
         m = _RE_FRAME.match(inner.rstrip())
         if m and m.group(1) == path:
             blocks.append((int(m.group(2)), m.group(3), []))
-        elif blocks and inner.strip():
+        elif blocks and inner.strip(" "):
             blocks[-1][2].append(inner)
     return blocks
 
@@ -957,13 +1025,15 @@ def _judge_traceback(case, text, frames, path, out):
 
         prob = judge(L) if rows is not None else (
             "block-malformed", "frame %s:%d: cannot split %r into marker, number, code" % (fn, lineno, blk[2]))
-        if prob and _extra_blank_row(blk[2], lambda rr, _g: judge(L, rr)):
+        if prob and rows is not None and _only_whitespace_differs(lambda: judge(L)):
+            prob = ("whitespace-characters-changed", prob[1])
+        elif prob and _extra_blank_row(blk[2], lambda rr, _g: judge(L, rr)):
             # diagnosis only (chooses the finding key): everything but a last, blank, numbered row is right
             prob = ("extra-blank-line-after-last", "frame %s:%d: one more numbered blank line follows the shown "
                                                    "lines: %r" % (fn, lineno, blk[2]))
         if rows is None:
             break
-        if prob and k and prob[0] != "extra-blank-line-after-last":
+        if prob and k and prob[0] not in ("extra-blank-line-after-last", "whitespace-characters-changed"):
             # diagnosis: is this the rendering of the file without its leading blank lines?
             LL = L[k:]
             # (a blank row numbered beyond the end of the shortened file is what an empty selection looks like)
@@ -1299,7 +1369,9 @@ def plan(tier, seed):
     nsh = 4 if tier == "quick" else 16
     nk = 8 if tier == "quick" else 32
     nr = 16 if tier == "quick" else 64
-    return [{"part": "tbk", "i": i, "n": nk} for i in range(nk)] + \
+    nw = 4 if tier == "quick" else 16
+    return [{"part": "ws", "i": i, "n": nw} for i in range(nw)] + \
+           [{"part": "tbk", "i": i, "n": nk} for i in range(nk)] + \
            [{"part": "synr", "i": i, "n": nr} for i in range(nr)] + \
            [{"part": "synh", "i": i, "n": nsh} for i in range(nsh)] + \
            [{"part": "tbh", "i": i, "n": nh} for i in range(nh)] + \
@@ -1317,6 +1389,8 @@ def run_shard(sh, tier, seed):
         _part_synh(sh, tier, res)
     elif sh["part"] == "synr":
         _part_synr(sh, tier, res)
+    elif sh["part"] == "ws":
+        _part_ws(sh, tier, res)
     elif sh["part"] == "tbk":
         _part_tbk(sh, tier, res)
     else:
@@ -1345,6 +1419,11 @@ def describe(tier, seed, res):
                 "traceback modules have 4 variants with such a line before the raise. Syntax histories: %d histories "
                 "of events {Syntax.from_path(file .e), Syntax(code, alias e)} x e in %s x %d codes%s, all ordered pairs%s, each "
                 "in a forked child of a fresh worker that has rendered nothing. "
+                "Whitespace stratum: %d sources = every sequence of <=3 lines with exactly one of %d lines that carry "
+                "U+00A0, U+3000, U+2003, U+200B, form feed, VT (leading, after two spaces, in the middle, alone) or a tab after "
+                "spaces, the other lines blank or indented, x lexers %s x indent_guides x line_numbers x word_wrap x %s; the "
+                "displayed code points must be those of the source line (tabs expanded; only ASCII-space padding is stripped); "
+                "traceback modules also with a triple-quoted string whose lines start with U+3000 / are U+00A0 only. "
                 "Option product (P5): for those shorter sources and lexers %s the full product indent_guides x console "
                 "encoding {utf-8, ascii} x line_numbers x word_wrap x every range. Every traceback module is rendered on a "
                 "utf-8 and on an ascii console (latin-1 and legacy_windows consoles on the sub-product without trailing blank "
@@ -1367,11 +1446,14 @@ def describe(tier, seed, res):
                     sum(1 for _ in _synh_cases(tier)), H_ALIASES, len(H_CODES),
                     "" if tier == "quick" else " x {no range, (2,3)}",
                     "" if tier == "quick" else " and triples over the first code",
+                    len(_ws_sources()), len(WS_LINES), list(WS_LEXERS),
+                    "{no range, (2,3)}" if tier == "quick" else "every range",
                     list(PRODUCT_LEXERS), sum(1 for _ in _kinds_cases(tier)), 2 if tier == "quick" else 3, K_KINDS,
                     LEAF_KINDS, sum(1 for _ in _rr_cases(tier)), 2 if tier == "quick" else 3, _rr_lexers(tier), len(R_DEVS),
                     2 if tier == "quick" else 3),
         "assumptions": [
-            "source lines = code.expandtabs(tab_size).split('\\n'); blank lines after the last non-blank line may be shown or not",
+            "source lines = code.expandtabs(tab_size).split('\\n'); blank lines after the last non-blank line may be shown or not; "
+            "blank = empty or ASCII spaces only -- every other white space (U+00A0, U+3000, ...) is a character of the code",
             "with indent_guides the guide character U+2502 may stand where the source has a space",
             "a line may be cropped (or wrapped, non-space characters kept in order) only when it is wider than code_width / "
             "the width left of the console",
@@ -1387,6 +1469,7 @@ def describe(tier, seed, res):
         "coverage": {"sources": nsrc, "source_lexer_units": res.counters.get("syn_units", 0),
                      "traceback_rewrite_histories": res.counters.get("tb_histories", 0),
                      "syntax_histories": res.counters.get("syn_histories", 0),
+                     "whitespace_cases": res.counters.get("whitespace_cases", 0),
                      "rerender_histories": res.counters.get("rerender_histories", 0),
                      "traceback_frame_kind_cases": res.counters.get("tb_frame_kind_cases", 0)},
     }
